@@ -70,6 +70,12 @@ func (w *webhookExecutorEtag) adjustResponse(
 		if !cacheEntryExists {
 			return nil, fmt.Errorf("cannot find cached response for cache key: %s", cacheKey)
 		}
+		// A concurrent call about the same object may have replaced the entry since
+		// this request was sent: "not modified" refers to the ETag we sent, not to
+		// whatever is cached by now.
+		if cacheEntry.Etag != request.Header.Get(headerIfNoneMatch) {
+			return nil, fmt.Errorf("cached response for cache key %s no longer belongs to ETag %s", cacheKey, request.Header.Get(headerIfNoneMatch))
+		}
 		return cacheEntry.Response, nil
 	}
 	eTag := response.Header.Get(headerETag)
